@@ -126,7 +126,7 @@ EXTRA = dict(
     technique=(
         "TLA+ reference UtilCont (chains, lists, cursors, ordered sets, string algebra; one pure operator UCall) and "
         "implementation layer UtilContImpl (links, head/tail/size, table; transcribed from _util.py) model-checked in "
-        "lock step by TLC (refinement, structure invariants, 14 action properties, 7 spec-level negative controls); "
+        "lock step by TLC (refinement, structure invariants, 12 action properties, 7 spec-level negative controls); "
         "the complete emitted LTS of the closed configurations replayed into real objects with tame / odd-character / "
         "size-stressed payloads and every public call variant plus long-lived random walks; recorded histories "
         "(many / large lists and sets, case-mapping hazards) validated by TLC with corrupted control traces."))
@@ -212,7 +212,10 @@ def read_emission(path):
         lines = sorted(l for l in f if l.startswith('<<"EDGE", "') or l.startswith('<<"STATE", "'))
     for line in lines:
         if line.startswith('<<"EDGE", "'):
-            edges.append(json.loads(line[11:-4].replace('\\"', '"').replace("\\\\", "\\")))
+            e = json.loads(line[11:-4].replace('\\"', '"').replace("\\\\", "\\"))
+            e["_f"] = key_of(e["from"])
+            e["_t"] = key_of(e["to"]) if e["to"] != 0 else e["_f"]
+            edges.append(e)
         else:
             s = json.loads(line[12:-4].replace('\\"', '"').replace("\\\\", "\\"))
             states[key_of(s["st"])] = s
@@ -299,11 +302,15 @@ def safe_item(conc, it):
 def judge(world, e, st_from, shapes, res, known, conc):
     """-> (None | ('known', id) | ('viol', msg), state the world is in now or None when it must be rebuilt)"""
     to = e["to"] if e["to"] != 0 else st_from
+    tk = e.get("_t") or key_of(to)
+    fk = e.get("_f") or key_of(st_from)
     if res_match(e["call"], e["res"], res):
-        msg = obs_mismatch(world, to, shapes[key_of(to)]["shape"])
+        if e["call"]["op"] in ("lclear", "lsetstate"):
+            world.keep_only({x for s in to["lst"] + to["ch"] for x in s})
+        msg = obs_mismatch(world, to, shapes[tk]["shape"])
         if msg is None:
             return None, to
-        if e.get("alt") and obs_mismatch(world, st_from, shapes[key_of(st_from)]["shape"]) is None:
+        if e.get("alt") and obs_mismatch(world, st_from, shapes[fk]["shape"]) is None:
             return None, None          # a failed extend() that added nothing is accepted as well (the walk ends here)
         return ("viol", "after %s -> %s: %s" % (describe_call(conc, e["call"]), json.dumps(res, ensure_ascii=False)[:200], msg)), None
     k = e["kres"]
@@ -311,7 +318,7 @@ def judge(world, e, st_from, shapes, res, known, conc):
         if k["t"] == "corrupt" and res == {"t": "node", "x": k["x"]} and K_SOLE in KNOWN_IDS:
             return ("known", K_SOLE), None
         if k["t"] == "broken" and res.get("t") == "broken" and K_EMPICK in KNOWN_IDS:
-            msg = obs_mismatch(world, st_from, shapes[key_of(st_from)]["shape"])
+            msg = obs_mismatch(world, st_from, shapes[fk]["shape"])
             if msg is None:
                 return ("known", K_EMPICK), st_from
     return ("viol", "%s returned / raised %s, the specification says %s (from lists %s free chains %s sets %s)" % (
@@ -362,7 +369,7 @@ def sub_shapes(shapes, states):
 def replay_lts(ctx, name, states, edges, rng, known, share=1.0):
     by_state = {}
     for e in edges:
-        by_state.setdefault(key_of(e["from"]), []).append(e)
+        by_state.setdefault(e["_f"], []).append(e)
     cseed = rng.getrandbits(32)
     concs = [X.Conc(cseed, s) for s in (0, 1, 2)]
     n = 0
